@@ -96,12 +96,15 @@ PROPS = {
     },
     "C03": {
         "pkg": "hreader", "test": "TestC03", "level": "exploration",
-        "quick": T(16, 60, timeout=900), "thorough": T(16, 2000, timeout=7000),
-        "rule": "2..4 source streams (clock skew 0 ms .. 10 min, nil/pchannel positions, 1..5 packs of 0..3 insert/delete messages, BeginTs=0 first packs, tick-only packs, equal-timestamp groups) multiplexed onto one downstream channel; "
+        "quick": T(16, 0, timeout=900, tests=[{"test": "TestC03", "checks": 60}, {"test": "TestC03_Resume", "checks": 40}]),
+        "thorough": T(16, 0, timeout=7000, tests=[{"test": "TestC03", "checks": 2000}, {"test": "TestC03_Resume", "checks": 1500}]),
+        "rule": "TestC03_Resume: phase 1 emits a prefix of 2..3 skewed streams sharing the channel; checkpoints are taken from the last emitted pack of every stream as the server persists them; the manager is closed (pause of the target or process restart with a fresh ts manager) and a new one resumes a drawn subset in a drawn order; oracle: channel time never goes back across the resume + the full oracle on phase 2. "
+                "TestC03: 2..4 source streams (clock skew 0 ms .. 10 min, nil/pchannel positions, 1..5 packs of 0..3 insert/delete messages, BeginTs=0 first packs, tick-only packs, equal-timestamp groups) multiplexed onto one downstream channel; "
                 "75% of the cases run under a drawn schedule: the verif yield hook parks a stream goroutine between 'pack computed' and 'pack enqueued' and the schedule decides which parked pack is released next while other streams are fed; "
                 "oracle on the sequence read from GetMsgChan: every pack ends with a tick, closing ticks never decrease, every message is later than all earlier closing ticks and not later than its own, begin/end/message/row/position times of data packs agree, "
                 "source order (<,=,>) of messages of one shard is mirrored. non-trivial = a pack was fed while another stream's pack sat in the computed-not-enqueued window (or releases were reordered) and >= 2 data packs; distinct = distinct scripts+schedule",
-        "assumptions": ["resume from a persisted checkpoint is covered by the server-level checks, not here", "go-deadlock detector disabled in the harness (toolchain artefact)"],
+        "assumptions": ["TestC03_Resume restates the derivation of seek time / channel start time from a checkpoint (cdc_impl.go startInternal) in the harness; the real derivation runs in the C05 simulator",
+                        "known finding F-C03-resume-order: while listed, the stream whose checkpoint establishes the latest channel time is resumed first and cases in which no checkpoint reaches the emitted channel time are skipped (both counted)", "go-deadlock detector disabled in the harness (toolchain artefact)"],
     },
     "C04": {
         "pkg": "hreader", "test": "TestC04", "level": "exploration",
